@@ -10,6 +10,10 @@ NOTE = ("Trusted base: go/types (type checking and constant evaluation), golang.
         "The check decides the named structural clauses only; the value-level remainder listed in the evidence under not_covered is not claimed.")
 
 CLAIMED = {
+ "C14": dict(level="other",
+   technique="static analysis: nil-dominance dataflow over every dereference of an optional pointer in the object accessors; path-wise extraction and three-way comparison of the key-format tables (decoder destination, accessor source, builder field); recognition of the 1.3 version switch and of the curve tables",
+   text="Decides clause (b) for repository code and the table-agreement part of clause (a): in every accessor each dereference of a pointer loaded from an optional part of a decoded object is dominated by a nil test on the same access path (four nil dereferences on metadata-only or empty key blocks were repaired and are guarded); for each of the 13 key formats the KeyMaterial field the decoder fills is the one each accessor reads and the one each register builder populates with that format constant, on every path of the builders; the builders switch to the unified EC representation exactly at CompareVersions(version, V1_3) >= 0; builder and accessor curve tables are inverse with the right bit lengths. Mathematical equality of the extracted key (big-integer bytes, DER, curve arithmetic) is value-level and not decided; the planned stdlib-hand-over obligation was dropped as a false alarm (crypto/rsa tolerates nil primes).",
+   ref="§4 C14"),
  "C12": dict(level="other",
    technique="static analysis: forbidden-construct rule on unchecked type assertions over server-chosen values in package kmipclient (discharged only through the attribute type table), dominating-length-check rule for batch item indexing, dominance of the Err()==nil edge over success returns, presence of the operation comparison before items are returned",
    text="Decides the structural guards that turn any server response into either the right payload or an error: no panicking type assertion on a payload, object, attribute value or parsed key whose dynamic type the server chooses (three such assertions were repaired; the remaining ones are proven from attrTypes), every constant index into response items is implied by a count check, a payload is returned as success only on the Err()==nil edge of an Err() that reports status, reason and message for every non-success status, and items are returned only after both the item's operation and its payload's operation were compared with the requested one. The enumeration of all response shapes is not performed.",
